@@ -366,6 +366,9 @@ func main() {
 	legacyStream(r, run.Scale(60, 3000))
 	modeStream(r, run.Scale(1, 40))
 	plainStream(r, run.Scale(60, 5000))
+	for i := run.Scale(200, 10000); i > 0; i-- {
+		runDynamic(genDynamic(r))
+	}
 	n := run.Scale(600, 48000)
 	for i := 0; i < n; i++ {
 		runHistory(genHistory(r, 10))
@@ -439,6 +442,9 @@ func checkFloors() []string {
 	need("init:unparseable-but-loaded", run.Scale(2, 100))
 	need("init:symlinked-path", run.Scale(20, 2000))
 	need("store:disable-put", run.Scale(10, 1000))
+	need("dynamic:histories", run.Scale(150, 8000))
+	need("dynamic:native-routed", run.Scale(30, 1500))
+	need("dynamic:put-to-file", run.Scale(100, 5000))
 	need("op:set-creds-store", run.Scale(50, 5000))
 	need("codec:decode", run.Scale(1000, 100000))
 	need("codec:json-string", run.Scale(2500, 150000))
